@@ -10,24 +10,6 @@ stdin: {"jobs": [...], "par": k};  stdout: one JSON line {"obs": [...]} (same or
 import hashlib, json, os, subprocess, sys, tempfile, threading, time
 
 _MAIN = __name__ == "__main__"
-_SUB = "--sub" in sys.argv
-_slow_out, _slow_threads = {}, []
-if _MAIN:
-    _payload = json.load(sys.stdin)
-    if not _SUB:
-        # process-pool histories are slow (every worker imports pennylane): each runs in its own driver
-        # process (at most "par" at a time), started before this process pays for its own import
-        _sem = threading.Semaphore(int(_payload.get("par", 4)))
-
-        def _one(job):
-            with _sem:
-                p = subprocess.Popen([sys.executable, os.path.abspath(__file__), "--sub"], stdin=subprocess.PIPE,
-                                     stdout=subprocess.PIPE, stderr=subprocess.PIPE, text=True)
-                _slow_out[job["id"]] = p.communicate(json.dumps({"jobs": [job]}))
-        for _j in _payload["jobs"]:
-            if _j["slow"]:
-                _t = threading.Thread(target=_one, args=(_j,))
-                _t.start(); _slow_threads.append(_t)
 
 import warnings
 warnings.filterwarnings("ignore")
@@ -147,7 +129,7 @@ def run_job(job, tmp):
         open(log, "w").close()
         hrng = int(hashlib.sha1(f"{job['salt']}:{si}".encode()).hexdigest(), 16)
         os.environ.update({"C31_LOG": log, "C31_SALT": f"{job['salt']}:{si}", "C31_MAXD": str(job["maxd"]),
-                           "C31_HEAVY": str(seeds[hrng % n]) if job["heavyd"] else "", "C31_HEAVYD": str(job["heavyd"])})
+                           "C31_HEAVY": str(seeds[hrng % (min(n, 2) if job.get("heavy_first") else n)]) if job["heavyd"] else "", "C31_HEAVYD": str(job["heavyd"])})
         t0 = time.monotonic()
         try:
             if job["via"] == "qp":
@@ -176,24 +158,56 @@ def run_job(job, tmp):
     return {"id": job["id"], "steps": steps}
 
 
+def _fork_job(job, tmp):
+    """process-pool histories are slow (every pool worker imports pennylane): each runs in a forked copy of this
+    (already imported, still single-threaded) driver with its own environment; result comes back through a file"""
+    path = os.path.join(tmp, f"obs_{job['id']}.json")
+    pid = os.fork()
+    if pid == 0:
+        try:
+            try:
+                o = run_job(job, tmp)
+            except BaseException as e:  # noqa
+                o = {"id": job["id"], "steps": [], "driver_error": f"{type(e).__name__}: {str(e)[:1000]}"}
+            with open(path, "w") as f:
+                f.write(json.dumps(o))
+        finally:
+            os._exit(0)
+    return pid, path
+
+
 if _MAIN:
+    _payload = json.load(sys.stdin)
     tmp = tempfile.mkdtemp(prefix="c31_")
     try:
-        if _SUB:
-            print(json.dumps({"obs": [run_job(j, tmp) for j in _payload["jobs"]]}))
-        else:
-            obs = {}
-            for j in _payload["jobs"]:
-                if not j["slow"]:
-                    obs[j["id"]] = run_job(j, tmp)
-            for t in _slow_threads:
-                t.join()
-            for jid, (out, err) in _slow_out.items():
-                try:
-                    obs[jid] = json.loads(out.strip().splitlines()[-1])["obs"][0]
-                except Exception:
-                    obs[jid] = {"id": jid, "steps": [], "driver_error": (err or "")[-1500:]}
-            print(json.dumps({"obs": [obs[j["id"]] for j in _payload["jobs"]]}))
+        queue = [j for j in _payload["jobs"] if j["slow"]]
+        running, paths, obs = {}, {}, {}
+
+        def pump(block=False):
+            while True:
+                while queue and len(running) < int(_payload.get("par", 4)):
+                    j = queue.pop(0)
+                    pid, path = _fork_job(j, tmp)
+                    running[pid] = j["id"]; paths[j["id"]] = path
+                if not running:
+                    return
+                pid, _ = os.waitpid(-1, 0 if block else os.WNOHANG)
+                if pid == 0:
+                    return
+                running.pop(pid, None)
+        pump()
+        for j in _payload["jobs"]:
+            if not j["slow"]:
+                obs[j["id"]] = run_job(j, tmp)
+                pump()
+        while running or queue:
+            pump(block=True)
+        for jid, path in paths.items():
+            try:
+                obs[jid] = json.loads(open(path).read())
+            except Exception as e:  # noqa
+                obs[jid] = {"id": jid, "steps": [], "driver_error": f"no result file: {e}"}
+        print(json.dumps({"obs": [obs[j["id"]] for j in _payload["jobs"]]}))
     finally:
         import shutil
         shutil.rmtree(tmp, ignore_errors=True)
